@@ -17,11 +17,9 @@
   `c11p_roundtrip`, `c11p_unknown`, `c11p_nopanic` restate C11's statements about the translated `Position` on every set
   built by the translated `NewFileSet` / `AddFile`.
 
-  NOT translated: `(*FileSet).ErrorWithPosition` (listed in `FactsProg.untranslatedProg`): it calls methods of the
-  opaque interfaces parsley.Error (`Pos`, `Error`) and parsley.Position (`String`, dynamically dispatched), compares an
-  interface value with a constant and builds an error with fmt.Errorf; its three ingredients on the file-set side —
-  `fs.Position`, the NilPosition answer, `Position.String` — are tied here, the text of the whole message is the model's
-  `errorWithPosition` (Model/Run.lean), which the correspondence harness checks.
+  `(*FileSet).ErrorWithPosition` — the caller of `fs.Position`, the NilPosition answer and `Position.String` — is
+  translated as well (progerr.go: error values observed through `Pos()` / `Error()`, fmt.Errorf as the formatted text, the
+  call `pos.String()` dispatched on the dynamic type); its tie to the model's `errorWithPosition` is Props/C06Q.lean.
 -/
 import ParsleyVerif.Proofs.TxtTieFileSet
 import ParsleyVerif.Proofs.TxtTieNewFile
